@@ -1,6 +1,6 @@
 import json, sys, subprocess, os
 pid, n = sys.argv[1], sys.argv[2] if len(sys.argv) > 2 else "2"
-wt = "/tmp/wt-" + pid.lower()
+wt = "/tmp/" + (sys.argv[3] if len(sys.argv) > 3 else "wt") + "-" + pid.lower()
 for l in open("/verif/properties.jsonl"):
     p = json.loads(l)
     if p["id"] == pid:
@@ -9,5 +9,9 @@ if not os.path.isdir(wt):
     subprocess.run(["git", "-C", "/repo", "worktree", "add", "--detach", wt, "HEAD"], check=True, stdout=subprocess.DEVNULL, stderr=subprocess.DEVNULL)
 os.makedirs(wt + "-scratch", exist_ok=True)
 t = open("/verif/tools/mutant_prompt.txt").read()
+if len(sys.argv) > 3:
+    t = t.replace("Prefer changes in DIFFERENT parts", "At least one of the changes must break one of the LESS OBVIOUS obligations of the property "
+                  "(the later clauses of the statement, the unusual entry points, rarely used parameters or algorithms), not its headline case. "
+                  "Never use pkill/killall or kill processes you did not start yourself. Prefer changes in DIFFERENT parts")
 print(t.replace("{WT}", wt).replace("{TITLE}", p["title"]).replace("{STATEMENT}", p["statement"])
        .replace("{QUANTIFIER}", p["quantifier"]["text"]).replace("{N}", n))
